@@ -975,7 +975,26 @@ def const_hosts():
     return res
 
 
-def or_patterns(tags=True):
+def cone_hosts(hosts):
+    """Hosts in which every node is an ancestor of the last node (the last node is then the only interesting root)."""
+    res = []
+    for h in hosts:
+        n = len(h["nodes"])
+        seen, stack = set(), [n - 1]
+        while stack:
+            j = stack.pop()
+            if j in seen:
+                continue
+            seen.add(j)
+            for r in h["nodes"][j]["ins"]:
+                if r is not None and r[0] == "n":
+                    stack.append(r[1])
+        if len(seen) == n:
+            res.append(h)
+    return res
+
+
+def or_patterns(tags=True, full=True):
     """OR family: a top node whose operand is OrValue([alt1, alt2(, alt3)]) over small sub-patterns in x, y (dispatchable
     when the alternatives are computed by distinct operators, otherwise backtracking), with the top node repeating a
     variable / sharing a node with an alternative, optionally named / tagged, optionally returned as second output."""
@@ -998,6 +1017,8 @@ def or_patterns(tags=True):
         ]
 
     names = [s[0] for s in subs([])]
+    if not full:
+        names = [n for n in names if n not in ("c", "y", "split0_x", "split1_x")]
     tops = ["neg", "add_or_x", "add_x_or", "sub_or_y", "add_or_or", "add_or_negx", "neg_ret"]
     for a, b in itertools.permutations(names, 2):
         for top in tops:
